@@ -25,6 +25,7 @@ func init() {
 			ruleSearchTriesEverySibling(c, "R10", []*ssa.Function{c.A.TreeRemove}, "a removed pattern is gone: the lookup of the node to remove tries every sibling")
 			ruleReadersWriteNothing(c, "R13", "tree", "router")
 			ruleExhaustedPathPrefersTheNode(c, "R14")
+			ruleRootMappedPathsAreNotPatterns(c, "R15")
 		},
 	})
 }
